@@ -17,7 +17,7 @@ type c01Shape struct {
 func c01WhereShapes(tier int) []c01Shape {
 	lmax, kmax := 5, 2
 	if tier > 0 {
-		lmax, kmax = 7, 3
+		lmax, kmax = 8, 3
 	}
 	var s []c01Shape
 	for l := 0; l <= lmax; l++ {
